@@ -4,7 +4,7 @@ PROPS = {}
 
 PROPS["C12"] = dict(
     num=12,
-    labs=["c12"],
+    labs=["c12", "drv"],
     rule="Frames over the equivalence classes the programs inspect (ethertype, protocol, IHL 0..15 x all 256 TCP flag bytes, "
          "fragment bits x protocols, every single-byte/bit perturbation of header bytes 12..73 of 13 base frames, every truncation "
          "length, random/mutated frames) x TCP 4-tuple configurations at sign/endianness boundaries; each frame is run through the "
@@ -13,7 +13,7 @@ PROPS["C12"] = dict(
     trivial_classes=[0],
     signatures={"1": "icmp program differs from its spec", "2": "udp program differs from its spec", "3": "synack program differs from its spec",
                 "4": "drop-all program accepts a frame", "5": "tcp 4-tuple program differs from its spec",
-                "6.0": "matcher yields a hop/handshake for a frame the installed filter rejects: IPv6 hop-by-hop before ICMPv6"},
+                "6.0": "matcher yields a hop for a frame the installed filter rejects: IPv6 hop-by-hop header before ICMPv6", "6.1": "matcher yields a hop for a frame the installed capture filter rejects", "6.2": "the SYN-ACK that establishes the SACK handshake is rejected by the SYN-ACK capture filter"},
     trusted_base=["x/net/bpf assembler and VM (the Coq interpreter is compared with bpf.VM on every case)",
                   "kernel cBPF semantics = x/net/bpf VM semantics (not verified)"],
     assumptions=["programs are the ones getClassicBPFFilter returns on this tree (regenerated each run)"],
@@ -39,7 +39,7 @@ PROPS["C07"] = dict(
     num=7, labs=["eng"], rule=ENG_RULE,
     nontrivial="at least one reply accepted by the engine",
     trivial_classes=[0, 1, 64, 65],
-    signatures={"7": "a reported hop is not (earliest destination reply for its TTL, else earliest reply)", "9": "a valid scripted run returned an error"},
+    signatures={"7": "a reported hop is not (earliest destination reply for its TTL, else earliest reply)", "7.2": "a reply readable one poll interval before the deadline was not accepted by the receiver", "9": "a valid scripted run returned an error", "10": "engine panicked", "3.1": "out-of-range reply produced a path"},
     trusted_base=ENG_TRUSTED + ["atomicity of writeProbe (runs under resultsMu) is an assumption of the transition system, supported by C14"],
     assumptions=["Go scheduler not modelled; the transition system's steps are the atomic actions of the Go code"],
 )
@@ -89,8 +89,8 @@ DRV_TRUSTED = ["gopacket v1.1.19 decoders/serialisers, x/net/icmp.ParseMessage, 
                "simulated Source/Sink and synctest clock in /verif/harness; verif-tagged constructors in /repo (export_verif.go)"]
 for _pid, _num, _labs, _sig in [
     ("C01", 1, ["drv"], {"1": "a hop was reported for a packet that is not a genuine reply to this run's probe with that TTL from that address", "1.9": "a hop from bytes the model cannot even parse"}),
-    ("C02", 2, ["drv"], {"2": "a catalogue reply form was not recognised", "2.1": "a catalogue reply form was credited to the wrong TTL or responder", "2.2": "ACK without SACK blocks did not end the SACK run as not-supported"}),
-    ("C04", 4, ["drv", "doc"], {"4": "destination flag differs from the protocol's proof of arrival from the target"}),
+    ("C02", 2, ["drv", "eng"], {"2": "a catalogue reply form was not recognised", "2.1": "a catalogue reply form was credited to the wrong TTL or responder", "2.2": "ACK without SACK blocks did not end the SACK run as not-supported", "2.3": "parallel engine: a reply readable one poll interval before the deadline was not accepted"}),
+    ("C04", 4, ["drv", "doc", "eng"], {"4": "destination flag differs from the protocol's proof of arrival from the target", "7": "engine: reported hop (address, RTT, destination flag) is not the reply kept by the merge rule"}),
     ("C05", 5, ["drv", "eng"], {"5": "RTT is negative or not (processing instant - send instant of a probe with that TTL); engine kept a later duplicate"}),
     ("C06", 6, ["drv", "eng"], {"6.1": "probe malformed: version/IHL, TTL byte, length or checksum", "6.2": "probe flow fields differ from the run's", "6.3": "identifier shared with the probe of another TTL", "6": "emission order / pacing / stop-after-destination violated"}),
     ("C09", 9, ["drv"], {"9.1": "the driver panicked", "9.2": "a non-empty inbound packet produced a run-aborting error", "9.3": "not-supported from a packet other than the permitted SACK case"}),
